@@ -222,7 +222,9 @@ def run(pid, tier, seed):
         longdir = "var/log/pods/" + "kube-system_coredns-5d78c9869d-abcde_0123456789abcdef0123456789abcdef" + "/coredns"
         namesets = [[longdir + "/0.log", "short.log"], ["d/" + "x" * 120 + ".log"], ["dir with blank/" + "\u00e9\u00e8 \u03c9.log", "a.log"],
                     ["p" * 90 + "/" + "q" * 90 + "/m.log", longdir + "/1.log", "z.log"]]
-        for names in (namesets if tier == "thorough" else namesets[:3]):
+        # member paths that are suffixes / prefixes of one another, in both orders
+        namesets = [["deep/er/sys.log", "er/sys.log", "sys.log"], ["sys.log", "er/sys.log", "sys.log.1", "xsys.log"]] + namesets
+        for names in (namesets if tier == "thorough" else namesets[:5]):
             blobs = [text_blob(rng, rng.choice([80, 900, 5000])) for _ in names]
             plain = {"m%d.log" % j: b_ for j, b_ in enumerate(blobs)}
             for fmt, fl in ((tarfile.USTAR_FORMAT, "ustar"), (tarfile.GNU_FORMAT, "gnu"), (tarfile.PAX_FORMAT, "pax")):
@@ -289,12 +291,43 @@ def run(pid, tier, seed):
             if b.crashed or a.out != b.out or not a.out:
                 rep.violation("differs:%s" % label, "%s: compressed form prints %d bytes, plain %d bytes" % (label, len(b.out), len(a.out)),
                               {"kind": "shipped", "plain": plain_rel, "form": form_rel, "opts": opts, "rc": b.rc})
+        # tar bundles of journals / event logs (members are unpacked through temp files, selected by member path): two
+        # journals whose member paths are suffix-related, in both orders, and a mixed bundle
+        bundles = 0
+        rj = os.path.join(sdir, "r.journal")
+        with open(rj, "wb") as f:
+            subprocess.run(["gzip", "-dc", os.path.join(REPO, "logs/programs/journal/RHE_91_system.journal.gz")], stdout=f, check=True)
+        if not os.path.exists(os.path.join(sdir, "u.journal")):
+            with open(os.path.join(sdir, "u.journal"), "wb") as f:
+                subprocess.run(["gzip", "-dc", os.path.join(REPO, jr + ".gz")], stdout=f, check=True)
+        if not os.path.exists(os.path.join(sdir, "k.evtx")):
+            shutil.copyfile(os.path.join(REPO, ev), os.path.join(sdir, "k.evtx"))
+        rd = lambda n_: open(os.path.join(sdir, n_), "rb").read()
+        for bi, (members, plain_argv) in enumerate([
+                ([("archive/system.journal", "r.journal"), ("system.journal", "u.journal")], ["r.journal", "u.journal"]),
+                ([("system.journal", "u.journal"), ("archive/system.journal", "r.journal")], ["u.journal", "r.journal"]),
+                ([("logs/k.evtx", "k.evtx"), ("sub/u.journal", "u.journal"), ("u.journal", "r.journal")], ["k.evtx", "u.journal", "r.journal"])]):
+            tname = "bundle%d.tar" % bi
+            with open(os.path.join(sdir, tname), "wb") as f:
+                f.write(gen.tar_bytes([(mn, rd(src_)) for mn, src_ in members], fmt=tarfile.GNU_FORMAT))
+            for opts in (["--journal-output", "export"], ["--journal-output", "short-iso-precise"]):
+                tmp = os.path.join(sdir, "tmpb")
+                os.makedirs(tmp, exist_ok=True)
+                a = common.run_s4(["--color", "never"] + opts + plain_argv, cwd=sdir, timeout=300)
+                b = common.run_s4(["--color", "never"] + opts + [tname], cwd=sdir, tmpdir=tmp, timeout=300)
+                bundles += 1
+                if b.crashed or a.out != b.out or not a.out:
+                    rep.violation("differs:bundle", "tar of %s %s: archived form prints %d bytes, the plain files %d bytes (first difference at byte %d)"
+                                  % ([m[0] for m in members], opts[1], len(b.out), len(a.out), first_diff(a.out, b.out)),
+                                  {"kind": "bundle", "members": members, "opts": opts, "rc": b.rc})
+                if os.listdir(tmp):
+                    rep.violation("tempfile-left:bundle", "temp files left: %s" % os.listdir(tmp), {"kind": "bundle", "members": members})
         rep.coverage = {"states": states, "transitions": trans, "traces_validated_against_impl": traces_ok,
                         "evaluations": nblocks + len(runs) + len(shipped), "distinct_nontrivial": nontriv + len([o for o in outs if len(meta[o["id"]][0]) > meta[o["id"]][1]]),
                         "rule": "in-process: one evaluation = one read_block call on a real container compared with the plain slice; "
                                 "e2e: one (plain, stored form) pair of runs; non-trivial = content larger than one block",
                         "samples": samples or [{"note": "see tlc_configs"}], "tlc_configs": tl, "block_calls": nblocks,
-                        "e2e_pairs": len(runs), "shipped_pairs": len(shipped), "exhaustive": False}
+                        "e2e_pairs": len(runs), "shipped_pairs": len(shipped), "journal_evtx_tar_bundles": bundles, "exhaustive": False}
         rep.assumptions = ["single-stream compressed files only (multi-stream gz/xz is a documented limitation)",
                            "compressor parameters limited to what python's gzip/bz2/lzma/tarfile and lz4_flex can produce",
                            "only one non-empty .evtx and the shipped journals are available for those kinds"]
